@@ -462,6 +462,13 @@ fn suffixes(tier: Tier, second: &[u8]) -> Vec<(String, Vec<u8>)> {
     }
     v.push(("second-record".into(), second.to_vec()));
     v.push(("truncated-record".into(), second[..second.len() / 2].to_vec()));
+    // buffers whose total length crosses 2^16 (seeds only: see run_c13), and suffixes that look like headers
+    for n in [65_235usize, 65_535, 65_536, 70_000] {
+        v.push((format!("{n}x00"), vec![0u8; n]));
+    }
+    v.push(("list-header-f9ffff".into(), vec![0xf9, 0xff, 0xff]));
+    v.push(("string-header-b9ffff".into(), vec![0xb9, 0xff, 0xff]));
+    v.push(("list-header-ff".into(), vec![0xff; 9]));
     v
 }
 
@@ -494,7 +501,7 @@ pub fn run_c13(tier: Tier, rep: &mut Report) {
         }
     }
     let sfx = suffixes(tier, &second);
-    let small_sfx: Vec<(String, Vec<u8>)> = sfx.iter().filter(|(l, _)| ["1x00", "56xff", "301xc0", "second-record"].contains(&l.as_str())).cloned().collect();
+    let small_sfx: Vec<(String, Vec<u8>)> = sfx.iter().filter(|(l, _)| ["1x00", "56xff", "301xc0", "second-record", "list-header-f9ffff", "list-header-ff"].contains(&l.as_str())).cloned().collect();
     struct R {
         viols: Vec<Viol>,
         classes: Vec<String>,
@@ -655,12 +662,93 @@ pub fn run_c13(tier: Tier, rep: &mut Report) {
             rep.viols.extend(v);
         }
     }
+    c13_many_and_nested(tier, rep);
     c13_history_independence(tier, rep);
     rep.stats.exhaustive = true;
     rep.require_class("c13:both-ok");
     rep.require_class("c13:both-err");
     rep.require_class("c13:pair:second-ok");
     rep.require_class("c13:pair:second-err");
+}
+
+/// Long lists (up to 64 records, more than 2^12 bytes), and lists of lists of records.
+fn c13_many_and_nested(tier: Tier, rep: &mut Report) {
+    fn go<K: EnrKey>(kt: KeyType, recs: &[Vec<u8>], viols: &mut Vec<Viol>) -> u64 {
+        let mut n = 0;
+        let singles: Vec<Option<Enr<K>>> = recs.iter().map(|b| Enr::<K>::decode(&mut &b[..]).ok()).collect();
+        if singles.iter().any(|s| s.is_none()) {
+            return 0;
+        }
+        let singles: Vec<Enr<K>> = singles.into_iter().map(|s| s.unwrap()).collect();
+        for count in [1usize, 2, 3, 9, 17, 33, 64] {
+            n += 1;
+            let mut payload = vec![];
+            let mut want = vec![];
+            for i in 0..count {
+                payload.extend_from_slice(&recs[i % recs.len()]);
+                want.push(singles[i % recs.len()].clone());
+            }
+            let buf = rlp::enc_list_payload(&payload);
+            let r = real::guard(|| {
+                let mut s = &buf[..];
+                Vec::<Enr<K>>::decode(&mut s).map(|v| (v, s.len()))
+            });
+            let ok = matches!(&r, Ok(Ok((v, 0))) if *v == want && v.iter().zip(&want).all(|(a, b)| real::encode(a) == real::encode(b)));
+            if !ok {
+                viols.push(Viol {
+                    prop: if r.is_err() { "C03" } else { "C13" },
+                    sig: format!("C13|Vec<Enr<{}>>::decode|list of many records|differs from the records decoded alone", kt.name()),
+                    what: format!("an RLP list of {count} valid records does not decode to those records"),
+                    rank: count,
+                    replay: json!({"engine":"suffix","form":"list","input_hex":hex::encode(&buf),"key_type":kt.name()}),
+                });
+            }
+        }
+        // a list of lists: [[r0, r1], [], [r2]]
+        n += 1;
+        let inner1 = rlp::enc_list_payload(&[recs[0].clone(), recs[1 % recs.len()].clone()].concat());
+        let inner2 = rlp::enc_list_payload(&[]);
+        let inner3 = rlp::enc_list_payload(&recs[2 % recs.len()]);
+        let buf = rlp::enc_list_payload(&[inner1, inner2, inner3].concat());
+        let r = real::guard(|| {
+            let mut s = &buf[..];
+            Vec::<Vec<Enr<K>>>::decode(&mut s).map(|v| (v, s.len()))
+        });
+        let want = vec![vec![singles[0].clone(), singles[1 % recs.len()].clone()], vec![], vec![singles[2 % recs.len()].clone()]];
+        if !matches!(&r, Ok(Ok((v, 0))) if *v == want) {
+            viols.push(Viol {
+                prop: if r.is_err() { "C03" } else { "C13" },
+                sig: format!("C13|Vec<Vec<Enr<{}>>>::decode|nested lists of records|differs from the records decoded alone", kt.name()),
+                what: "a list of lists of valid records does not decode to those records".into(),
+                rank: 3,
+                replay: json!({"engine":"suffix","form":"nested-list","input_hex":hex::encode(&buf),"key_type":kt.name()}),
+            });
+        }
+        n
+    }
+    let seeds = seed_records(tier);
+    let mut viols = vec![];
+    let mut n = 0u64;
+    for signer in [Signer::Secp(0), Signer::Ed(0)] {
+        let mut recs: Vec<Vec<u8>> = seeds.iter().filter(|(s, _)| s.signer == signer).take(3).map(|(_, b)| b.clone()).collect();
+        if let Some((_, b)) = padded_seed(signer, 300) {
+            recs.push(b);
+        }
+        match signer {
+            Signer::Secp(_) => {
+                n += go::<enr::k256::ecdsa::SigningKey>(KeyType::K256, &recs, &mut viols);
+                #[cfg(feature = "cfg-a")]
+                {
+                    n += go::<enr::secp256k1::SecretKey>(KeyType::LibSecp, &recs, &mut viols);
+                }
+            }
+            Signer::Ed(_) => n += go::<enr::ed25519_dalek::SigningKey>(KeyType::Ed, &recs, &mut viols),
+        }
+        n += go::<enr::CombinedKey>(KeyType::Combined, &recs, &mut viols);
+    }
+    rep.stats.transitions += n;
+    rep.stats.class_n("c13:long-and-nested-lists", n);
+    rep.viols.extend(viols);
 }
 
 /// "Consecutive records decode to the same records one would get individually": for every ordered
